@@ -4,8 +4,11 @@
    src/fs/glob.go; `glob_spec`: the documented semantics by path segments).
    Proofs: Proof/C21.v (matcher, path-string filters, witnesses), Proof/C21_paths.v (Join/Clean/Dir/Base on
    component lists), Proof/C21_walk.v (the walk), Proof/C21_tree.v (exclude lemma, filter composition, tree level),
-   Proof/C21_cache.v (the Globber as a state machine: the walkedDirs cache over a history of Glob calls). *)
-From PlzV Require Import Base.Harness Model.C21 Proof.C21 Proof.C21_paths Proof.C21_walk Proof.C21_tree Proof.C21_cache.
+   Proof/C21_cache.v (the Globber as a state machine: the walkedDirs cache over a history of Glob calls),
+   Proof/C21_builtin.v (what counts as a build file entry: the glob() builtin's appended excludes and the walk's
+   name-only sub-package guard, both regenerated from the source). *)
+From PlzV Require Import Base.Harness Model.C21 Proof.C21 Proof.C21_paths Proof.C21_walk Proof.C21_tree Proof.C21_cache
+  Proof.C21_builtin.
 
 Definition C21_statement : Prop :=
   (* for all BUILD file names, package paths, directory trees, include and exclude patterns (`*`, `?`, [class],
@@ -211,3 +214,72 @@ Example C21_partial_matcher_nonvacuous :
   /\ is_in_directories (s "p/sub/a.txt") [s "p/sub"] = true
   /\ is_hidden (s "p/.hid/x.txt") = false /\ is_hidden (s "p/d/.x.txt") = true.
 Proof. cbv zeta. split; [exact (proj1 compiles_sweep)|]. vm_compute. repeat split. Qed.
+
+(* The glob() builtin of the BUILD language (src/parse/asp/builtins.go): the exclude list it hands to the Globber is
+   the caller's plus what the regenerated append statement adds (builtin_appended, interpreted over the regenerated
+   expression: every configured build file name, whatever file the package was parsed from).  For ALL build file
+   name lists, parsed-from file names, package paths, trees of the tree-level domain (a package directory holding
+   several configured build file names included), pattern lists and flags: it returns, as a set, exactly the
+   documented selection with the build file names excluded, and no selected path ends in a configured build file
+   name. *)
+Theorem C21_partial_builtin :
+  forall bfn pkgfile pkg tree incs excs hidden syms,
+    inputs_ok pkg tree incs (excs ++ map lit_pat bfn) = true -> tree_wf tree = true ->
+    defect_class bfn pkg tree incs (excs ++ map lit_pat bfn) hidden = None ->
+    exists out,
+      glob bfn (pkg_name pkg) tree (map render incs) (map render excs ++ builtin_appended bfn pkgfile) hidden syms = Some out
+      /\ (forall x, In x out <-> exists f, x = intercalate f
+                                 /\ In f (glob_spec bfn (pkg_name pkg) tree incs (excs ++ map lit_pat bfn) hidden syms))
+      /\ (forall f, In f (glob_spec bfn (pkg_name pkg) tree incs (excs ++ map lit_pat bfn) hidden syms) ->
+                    ~ In (last f []) bfn).
+Proof. exact builtin_translated_correct. Qed.
+Print Assumptions C21_partial_builtin.
+
+(* "Is a build file entry" is decided by NAME alone.  The guard of the sub-package detection in walkDir, regenerated
+   from the source and evaluated for every entry kind, is the name test (so the WalkDirFunc built from it is the
+   model's); and for ALL build file names, roots and trees - symbolic links anywhere, as build files or not -
+   walkDir declares the same sub-packages in the same order and records the same set of paths (files and links
+   together) as on the tree with every link replaced by a regular file. *)
+Theorem C21_walk_kind_independent :
+  (forall bfn root path name n w, visit_gen bfn root path name n w = visit bfn root path name n w)
+  /\ forall bfn root tree,
+       w_subs (walk_dir bfn root tree) = w_subs (walk_dir bfn root (desym tree))
+       /\ w_syms (walk_dir bfn root (desym tree)) = []
+       /\ forall x, (In x (w_files (walk_dir bfn root tree)) \/ In x (w_syms (walk_dir bfn root tree)))
+                    <-> In x (w_files (walk_dir bfn root (desym tree))).
+Proof. exact (conj visit_regenerated walk_kind_independent). Qed.
+Print Assumptions C21_walk_kind_independent.
+
+(* Hence C21_partial_walk extends to trees with symbolic links: when the link-free image of the tree is in the
+   tree-level domain, the walk of the tree itself declares sub-packages and records paths such that after the
+   sub-package filter exactly the package's entries remain - a sub-directory whose build file is a link is a
+   sub-package like any other. *)
+Theorem C21_partial_walk_symlinks :
+  forall bfn pkg kids,
+    forallb entry_name_ok pkg = true -> tree_wf (desym (Dir kids)) = true ->
+    is_build_file bfn (root_str pkg) = false -> plz_ok (is_nil pkg) (desym (Dir kids)) = true ->
+    exists F S,
+      w_subs (walk_dir bfn (root_str pkg) (Dir kids)) = map (path_str pkg) S
+      /\ (forall x, (In x (w_files (walk_dir bfn (root_str pkg) (Dir kids))) \/ In x (w_syms (walk_dir bfn (root_str pkg) (Dir kids))))
+                    <-> In x (root_str pkg :: map (path_str pkg) F))
+      /\ (forall f, (In f F /\ under_any S f = false)
+                    <-> In f (map fst (ents bfn (is_nil pkg) [] (desym (Dir kids))))).
+Proof. exact walk_characterised_symlinks. Qed.
+
+(* Non-vacuity: a package whose sub-directory `sub` has a symbolic link as BUILD file (outside tree_wf, its link-free
+   image inside): `sub` is declared a sub-package and nothing beneath it is returned; a package directory holding
+   BUILD and BUILD.plz is in the domain of C21_partial_builtin, the builtin returns neither, while the Globber given
+   only the parsed file's own name as extra exclude returns the other one. *)
+Example C21_build_entry_nonvacuous :
+  (glob [s "BUILD"; s "BUILD.plz"] [] sym_tree [s "**/*.txt"; s "*.txt"] [] false true = Some [s "plain/p.txt"; s "a.txt"]
+   /\ w_subs (walk_dir [s "BUILD"; s "BUILD.plz"] (s ".") sym_tree) = [s "sub"]
+   /\ tree_wf (desym sym_tree) = true /\ tree_wf sym_tree = false)
+  /\ (let bfn := [s "BUILD"; s "BUILD.plz"] in
+      let incs := [[Seg (map ALit (s "BUILD") ++ [AStar])]; [Seg txt_pat]; [Seg (map ALit (s "dir")); Seg [AStar]]] in
+      inputs_ok [s "pkg"] two_names_tree incs ([] ++ map lit_pat bfn) = true
+      /\ tree_wf two_names_tree = true
+      /\ defect_class bfn [s "pkg"] two_names_tree incs ([] ++ map lit_pat bfn) false = None
+      /\ glob_builtin bfn (s "pkg") two_names_tree (map render incs) [] false false = Some [s "a.txt"; s "dir/x.txt"]
+      /\ glob bfn (s "pkg") two_names_tree (map render incs) [s "BUILD"] false false
+         = Some [s "BUILD.plz"; s "a.txt"; s "dir/x.txt"]).
+Proof. exact (conj sym_tree_witness two_names_witness). Qed.
